@@ -24,6 +24,40 @@ CLAIMED = {
         ref='DESIGN.md 3/C19'),
 }
 
+CLAIMED.update({
+    'C01': dict(
+        text='SingleLane.put/get are proved against a history contract (P == G ++ Q, FIFO, bound) under a rely/guarantee interference model; the fifo_stream '
+             'feeder and consumer are proved against ONE shared per-item protocol indexed by position (item #k pairs source element #k with its own future; '
+             'terminal item last, exactly once), so output #k == omap(x_k, outcome of x_k\'s future) for every input, every completion order (none occurs in '
+             'the formulas) and every capacity; Parmapper/executor wrappers are proved to pass func, arguments and flags through.',
+        technique='contract-based deductive verification: pyvc VCs over the real bodies; E2 rely/guarantee at Condition.wait; index-based history functions; z3',
+        ref='DESIGN.md 3/C01'),
+    'C05': dict(
+        text='Structural end-of-stream obligations proved on every path of the real producers/consumers/finalizers: terminal item last and exactly once on every '
+             'exit of each producer (Exception and StopRequested forwarded), no get after the terminal item, finalizer on every generator exit, join reached only '
+             'when the worker is known dead (timed drain loops) or within the put-credit lemma (K=2 <= capacity+1). "Cannot hang" then follows by the stated '
+             'meta-theorem; wall-clock bounds are not decided.',
+        technique='contract-based deductive verification: pyvc VCs (exceptional postconditions, under-stop variants with no-back-edge obligations, put-credit lemma), z3',
+        ref='DESIGN.md 3/C05, 2.4'),
+    'C08': dict(
+        text='Three counter invariants (feeder pulled-nput<=1, queue nput-nget<=maxsize, consumer nget-nyield<=1) are proved in the units of the real code, the queue '
+             'sizes capacity+1 / n and max_workers == concurrency are proved at the construction sites, and a linear-arithmetic lemma adds them to capacity+3 / n+2, '
+             'independent of stream length and speeds.',
+        technique='contract-based deductive verification: pyvc counter invariants on the real feeder/consumer/queue code + LIA lemma, z3',
+        ref='DESIGN.md 3/C08'),
+    'C12': dict(
+        text='SpawnProcess.run (child) is proved to send exactly (result, error) per the documented table on every path; _collect_result to resolve the future exactly '
+             'once on every path including EOF at each crash point (0, 1 or 2 messages sent) and every exit code; join/result/exception/done and Thread.run/join/'
+             'result/exception are proved to be functions of that single outcome, hence to agree.',
+        technique='contract-based deductive verification: pyvc VCs with exceptional postconditions and crash-point enumeration as symbolic pipe scripts, z3',
+        ref='DESIGN.md 3/C12'),
+    'C16': dict(
+        text='async_fifo_stream feeder and consumer are proved against the same protocol text and the same per-yield obligations as the sync pair (contracts/fifo.py); '
+             'a relational lemma gives equal outputs; the pinned-tree defect (stale/unbound task for a rejected element) is a failing "local is bound" obligation.',
+        technique='contract-based deductive verification: shared sidecar contract for the sync and async variants (pyvc), relational lemma, z3',
+        ref='DESIGN.md 3/C16'),
+})
+
 PENDING = 'check under construction (see DESIGN.md section 3)'
 NA = {}
 
